@@ -490,17 +490,22 @@ pub fn c17(c: &mut Ctx, b: &Budget) {
 }
 
 /// C18 - expressions, requests, responses, events
+/// function and parameter names: ordinary ones, the empty one, non-ASCII, names of known functions, and names that look
+/// like numbers (a named function "42" is not the known function 42)
+const FN_NAMES: &[&str] = &["foo", "add", "", "héllo", "42", "0", "007", "18446744073709551615", "-1", " 7", "1e3", "getBalance"];
+const PARAM_NAMES: &[&str] = &["bar", "lhs", "x", "1", "blank", "", "02"];
+
 pub fn c18(c: &mut Ctx, b: &Budget) {
     let rounds = (b.scenarios / 2).max(20);
     let through_bytes = |e: &Envelope| -> Envelope { Envelope::from_tagged_cbor_data(bytes_of(e)).unwrap() };
     for i in 0..rounds {
         c.begin("expressions");
-        let f: Function = if i % 2 == 0 { Function::from((i as u64 % 7) + 1) } else { Function::from(["foo", "add", "", "héllo"][i % 4]) };
+        let f: Function = if i % 2 == 0 { Function::from((i as u64 % 7) + 1) } else { Function::from(FN_NAMES[(i / 2) % FN_NAMES.len()]) };
         let mut ex = Expression::new(f.clone());
         let np = c.rng.below(4);
         let mut params = vec![];
         for k in 0..np {
-            let p: Parameter = if c.rng.chance(1, 2) { Parameter::from(k as u64 + 1) } else { Parameter::from(["bar", "lhs", "x"][k % 3]) };
+            let p: Parameter = if c.rng.chance(1, 2) { Parameter::from(k as u64 + 1) } else { Parameter::from(PARAM_NAMES[(k + i) % PARAM_NAMES.len()]) };
             let v = base_envelope(c, 1);
             ex = ex.with_parameter(p.clone(), v.clone());
             params.push((p, v));
@@ -792,10 +797,10 @@ pub fn c18_model(c: &mut Ctx, b: &Budget) {
     let cfg = GenCfg::default();
     for i in 0..(b.scenarios / 2).max(20) {
         c.begin("expressions-model");
-        let f = if i % 2 == 0 { format!("k:{}", (i % 7) + 1) } else { format!("n:{}", hexs(["foo", "add", "", "héllo"][i % 4])) };
+        let f = if i % 2 == 0 { format!("k:{}", (i % 7) + 1) } else { format!("n:{}", hexs(FN_NAMES[(i / 2) % FN_NAMES.len()])) };
         let np = c.rng.below(4);
         let mut ps = vec![];
-        for k in 0..np { let v = gen_env(c, &cfg, 1); let p = if c.rng.chance(1, 2) { format!("k:{}", k + 1) } else { format!("n:{}", hexs(["bar", "lhs", "x"][k % 3])) }; ps.push(format!("{}={}", p, v)); }
+        for k in 0..np { let v = gen_env(c, &cfg, 1); let p = if c.rng.chance(1, 2) { format!("k:{}", k + 1) } else { format!("n:{}", hexs(PARAM_NAMES[(k + i) % PARAM_NAMES.len()])) }; ps.push(format!("{}={}", p, v)); }
         let pss = if ps.is_empty() { "-".to_string() } else { ps.join(",") };
         let ex = c.assign(&format!("mk_expression {} {}", f, pss));
         c.obs(&format!("shape {}", ex));
